@@ -77,7 +77,7 @@ Definition C14_check (c : C14_case) : verdict :=
          negb (existsb (fun p => f_affects fl s ev p && negb (mem_str (f_key fl p) q)) cands));
       ("wrong-parent-woken",
          forallb (fun k => existsb (fun p => String.eqb (f_key fl p) k &&
-                                             (f_affects fl s ev p || (is_parent s && is_tombstone ev))) cands) q);
+                                             f_affects fl s ev p) cands) q);
       ("wrong-parent-woken",
          match controller_of (ev_obj ev), s with
          | Some _, SChild => Nat.leb (List.length q) 1
